@@ -63,6 +63,10 @@ def field (base : Int) (_name : String) : Int := base
 /-- a call of a function that does not return (`abort`, a failed `assert`) -/
 def noreturn {α : Type} (what : String) : Outcome α := .fault ("noreturn: " ++ what)
 
+/-- the definition of a translated loop ran out of the fuel it was given (never the C loop itself: the theorems
+choose the fuel and show that it suffices) -/
+def outOfFuel {α : Type} : Outcome α := .fault "translated loop: out of fuel"
+
 @[simp] theorem wrapU_of_range {bits : Nat} {x : Int} (h0 : 0 ≤ x) (h1 : x < (2 ^ bits : Int)) : wrapU bits x = x := by
   unfold wrapU; exact Int.emod_eq_of_lt h0 h1
 
